@@ -48,6 +48,9 @@ let run mode file =
         | None -> mismatch "guard" (Printf.sprintf "the model's guard refuses the step the code took: %s" what); ms := None) in
   let sorted_ints l = List.sort compare (List.map int_of_n l) in
   let ints_s l = String.concat "," (List.map string_of_int l) in
+  (* C18: size arithmetic (Grow.v) *)
+  let maxsize = ref 0 and asz = ref 16777216 and ngs = ref false in
+  let flen_open = ref 0 and flen_prev = ref 0 and expect_refuse = ref false and mark_before = ref 0 in
   let propfail rule detail =
     incr pfail;
     Printf.printf "PROPFAIL case=%s op=%d (%s) rule=%s %s\n" !case_id !opidx (String.concat " " !cur) rule detail in
@@ -72,6 +75,9 @@ let run mode file =
          if ret <> 0 then for p = ret to ret + n - 1 do feed (Pager.LAlloc (n_of_int p)) (Printf.sprintf "allocation of page %d which is not free" p) done
          else (match s.Pager.g_w with
              | Some w -> let m = int_of_n w.Pager.w_mark in
+               (if mode = "c18" then match Grow.alloc_refused (n_of_int !ps) (n_of_int !asz) (n_of_int !maxsize) (n_of_int m) (n_of_int n) with
+                  | Some true -> expect_refuse := true; flag "refused"
+                  | _ -> ());
                for p = m to m + n - 1 do feed (Pager.LAlloc (n_of_int p)) "allocation at the mark" done
              | None -> mismatch "guard" "allocation without a writer")
        | "rollback", Some s -> if s.Pager.g_w <> None then feed Pager.LRollback "rollback"
@@ -80,7 +86,11 @@ let run mode file =
       (match rest with "img" :: _ -> () | _ -> Buffer.add_string optext (String.concat " " rest); Buffer.add_char optext '\n');
       (match rest with "open" :: _ -> ms := None; open_free := None; data_written := IS.empty | _ -> ());
       (match rest with
-       | "open" :: fields -> List.iter (fun f -> match String.split_on_char '=' f with ["ps"; v] -> ps := int_of_string v | _ -> ()) fields
+       | "open" :: fields ->
+         maxsize := 0; asz := 16777216; ngs := false;
+         List.iter (fun f -> match String.split_on_char '=' f with
+           | ["ps"; v] -> ps := int_of_string v | ["max"; v] -> maxsize := int_of_string v
+           | ["asz"; v] -> if v <> "0" then asz := int_of_string v | ["ngs"; v] -> ngs := v <> "0" | _ -> ()) fields
        | ["close"] -> Hashtbl.reset readers
        | _ -> ())
     | "io" :: "write" :: off :: len :: rest ->
@@ -148,7 +158,12 @@ let run mode file =
           | ["ok"; bc] when String.length bc > 15 ->
             List.iter (fun id -> Hashtbl.remove readers (int_of_string id)) (String.split_on_char ',' (String.sub bc 15 (String.length bc - 15)))
           | _ -> ())
-       | ["beginw"], "ok" :: _ -> data_written := IS.empty
+       | ["commit"], ["EMaxSizeReached"] when mode = "c18" ->
+         if not !expect_refuse then mismatch "refusal" "the code refused with ErrMaxSizeReached where Grow.alloc_refused does not"
+       | ["commit"], "ok" :: _ when mode = "c18" && !expect_refuse && not !mdead ->
+         mismatch "refusal" "Grow.alloc_refused predicts ErrMaxSizeReached but the commit succeeded"
+       | ["beginw"], "ok" :: _ -> data_written := IS.empty; expect_refuse := false;
+         (match !ms with Some s -> mark_before := int_of_n s.Pager.g_mark | None -> ())
        | "open" :: _, _ -> ms := None; data_written := IS.empty
        | ["commit"], ["ok"; bc] when String.length bc > 15 ->
          List.iter (fun id -> Hashtbl.remove readers (int_of_string id)) (String.split_on_char ',' (String.sub bc 15 (String.length bc - 15)))
@@ -175,6 +190,29 @@ let run mode file =
             if sorted_ints (Pager.pend_pages s) <> ipend then mismatch "pending" (Printf.sprintf "impl=%s model=%s" (ints_s ipend) (ints_s (sorted_ints (Pager.pend_pages s))))
           | None -> ())
        | _ -> ());
+      if mode = "c18" then begin
+        let flen = int_of_string (get kv "flen") and datasz = int_of_string (get kv "datasz") in
+        if what = "open" then (flen_open := flen; flen_prev := flen);
+        if what = "commit" then begin
+          (match !ms with
+           | Some s when not !mdead && s.Pager.g_w = None ->
+             let mark = int_of_n s.Pager.g_mark in
+             let predicted =
+               if mark <= !mark_before then !flen_prev
+               else if !ngs then int_of_n (Grow.grow_nosync (n_of_int !flen_prev) (n_of_int (mark * !ps)))
+               else int_of_n (Grow.grow (n_of_int !asz) (n_of_int datasz) (n_of_int !flen_prev) (n_of_int ((mark + 1) * !ps))) in
+             if predicted <> flen then mismatch "file_size" (Printf.sprintf "file is %d bytes, Grow.v predicts %d (mark %d -> %d, datasz %d)" flen predicted !mark_before mark datasz)
+             else if flen > !flen_prev then flag "file-grew";
+             (* (S) the property *)
+             if !maxsize > 0 && flen > max !maxsize !flen_open then begin
+               let m = match Grow.mmap_size (n_of_int !ps) (n_of_int ((mark + 1) * !ps)) with Some m -> int_of_n m | None -> 0 in
+               propfail ("exceeds_maxsize" ^ (if datasz > m then " sig=d7 " else ""))
+                 (Printf.sprintf "file %d bytes > MaxSize %d (file at open %d, datasz %d, map size this database needs %d)" flen !maxsize !flen_open datasz m)
+             end
+           | _ -> ());
+          flen_prev := flen
+        end
+      end;
       if mode = "c10" then begin
       let flfree = IS.of_list (ints_of_csv (get kv "flfree")) in
       let pend_ids = List.concat_map (fun ent -> match String.split_on_char ':' ent with
